@@ -149,5 +149,6 @@ theorem wide_stmt_word (L : Layout) (σ : SrcSt) (st : RStmt) (s : String) (w : 
   | inc _ => simp [wResult] at h
   | dec _ => simp [wResult] at h
   | chain _ _ _ _ _ => simp [wResult] at h
+  | lin _ _ => simp [wResult] at h
 
 end CV.GenReg
